@@ -117,9 +117,13 @@ def search(seed, budget=6000, want_op=None):
             if op == 'append':
                 d = p.step(op, p.fresh())
             elif op == 'append_multiple':
+                k = rng.randint(0, 5)
                 if drop is not None:
-                    continue
-                d = p.step(op, [p.fresh() for _ in range(rng.randint(0, 5))])
+                    # the retained part must still hold all new items (precondition of the bulk append with the drop option)
+                    k = rng.randint(1, max(1, drop // 2))
+                    if (n + k) % drop == 0 and k > (n + k) - int(drop / 2):
+                        continue
+                d = p.step(op, [p.fresh() for _ in range(k)])
             elif op == 'delete':
                 if n == 0 or drop is not None:
                     continue
